@@ -23,7 +23,7 @@ Content(keys, vals, hasvals, o4, bigLatch) ==
       R |-> R, rp |-> rp,
       nodes |-> BuildNodes(keys, vals, hasvals, o.dd, bigLatch),
       valset |-> IF hasvals THEN {vals[i] : i \in 1..n} ELSE {NilV},
-      loaded |-> FALSE, stat |-> <<>>, lastk |-> <<>>, lastq |-> <<>>]
+      loaded |-> FALSE, stat |-> <<>>, lastk |-> <<>>, lastq |-> <<>>, lastrender |-> <<>>]
 
 \* NewSlimTrie: rejected with the out-of-order error iff the keys are not
 \* strictly ascending; otherwise the instance holds the built content.
